@@ -499,7 +499,19 @@ def stepUnary (st : St) (w : String) (rest : List String) (impl : Option (List S
     let M ← runP (do let M ← pMat; pEnd; pure M) rest
     -- relational model: any answer satisfying the certificate is accepted (`Lap.lean`)
     let d := dimsOf st.kA M
-    pure (if d.1 != d.2 then "exc:bpp" else "relational", vOfImpl impl (lapVerdict st.kA M))
+    let out :=
+      if d.1 != d.2 then "exc:bpp" else
+      -- the transcribed part of the routine (no free row after the column reduction) is compared
+      -- bit-for-bit; elsewhere the model is the certificate
+      match Lap.lapEasy d.1 (fun i j => M.at i j) with
+      | some a =>
+        let ix := List.range d.1
+        "cost " ++ showF a.cost ++ " ; rowsol " ++ " ".intercalate (ix.map fun i => toString (a.rowSol i))
+          ++ " ; colsol " ++ " ".intercalate (ix.map fun j => toString (a.colSol j))
+          ++ " ; u " ++ " ".intercalate (ix.map fun i => showF (a.u i))
+          ++ " ; v " ++ " ".intercalate (ix.map fun j => showF (a.v j))
+      | none => "relational"
+    pure (out, vOfImpl impl (lapVerdict st.kA M))
   | _ => none
 
 /-- extremum searches -/
